@@ -4,6 +4,7 @@ package keyper
 
 import (
 	"context"
+	"time"
 
 	"github.com/shutter-network/rolling-shutter/rolling-shutter/keyper/kprconfig"
 )
@@ -33,4 +34,18 @@ func VerifNewEonPubKeyHandler(config *kprconfig.Config, options ...Option) (*Ver
 // QueryAndHandleNewEonPubKeys is the body of one polling tick of eonPubKeyHandler.loop.
 func (v *VerifEonPubKeyHandler) QueryAndHandleNewEonPubKeys(ctx context.Context) error {
 	return v.pkh.queryAndHandleNewEonPubKeys(ctx)
+}
+
+// Loop runs the real polling loop of the handler (what Start hands to the service runner) until
+// ctx is cancelled.
+func (v *VerifEonPubKeyHandler) Loop(ctx context.Context) error {
+	return v.pkh.loop(ctx)
+}
+
+// VerifSetEonPubkeyTickerTime replaces the polling interval (a package variable read by loop when
+// it starts) and returns the previous value. Must not be called while a loop is being started.
+func VerifSetEonPubkeyTickerTime(d time.Duration) time.Duration {
+	old := eonPubkeyTickerTime
+	eonPubkeyTickerTime = d
+	return old
 }
